@@ -70,25 +70,34 @@ CFG = dict(
               "Proofs/JsonP", "Proofs/JsonDecP", "Proofs/LoggerJson", "Properties/C01", "Check/C01"],
     ocaml="c01",
     casesv=c01_casesv,
-    rule=("each case = one logged record: (derivation chain, level, source on/off, message, attribute tree) with the bytes of every Write. "
-          "Regression witnesses of the repaired stray-comma defect; every 1-byte string, a seed-dependent stride of (thorough: every) 2-byte "
-          "string, every Unicode scalar below U+3000 plus plane boundaries (thorough: all 1,112,064), surrogate encodings, overlongs, "
-          "truncations — each as message, key and string value; seeded random attribute trees (depth <= 5, keyed / inline / empty groups at "
-          "every position, LogValuers, all value kinds) behind chains of With / WithGroup of length <= 5, five levels, source on/off, through "
-          "Handler.Handle with hand-built records and through the Logger methods. distinct = distinct case lines"),
+    rule=("each case = one logged record: (derivation chain, level, source on/off with the FULL file name the runtime reports, message, "
+          "attribute tree) with the bytes of every Write. Regression witnesses of the repaired stray-comma defect and corpus/C01; every "
+          "1-byte string, a seed-dependent stride of (thorough: every) 2-byte string, every Unicode scalar below U+3000 plus plane "
+          "boundaries (thorough: all 1,112,064), surrogate encodings, overlongs, truncations - each in every position at once (message, "
+          "key, string value, WithGroup name, With attribute, group key and member, error text, AnsiString, Marshaler error / panic text, "
+          "TextMarshaler text, inside a Marshaler result that copies invalid UTF-8); long strings of 63 B .. 70 KiB with hostile bytes at "
+          "start / middle / end; seeded random attribute trees (depth <= 5, up to 14 attributes, keyed / inline / empty groups at every "
+          "position, LogValuers, all value kinds incl. panicking Marshalers and json.RawMessage with invalid UTF-8) behind chains of With / "
+          "WithGroup of length <= 5 with sibling derivations interleaved, five levels, source on/off, through Handler.Handle with hand-built "
+          "records (pcs inside functions declared under //line directives with quote, backslash, control, non-ASCII file names) and through "
+          "all Logger methods (Debug..Error, Log, LogAttrs, Debugf..Errorf, Logf, Panic, Panicf) called from those functions. "
+          "distinct = distinct case lines; lines above 6000 bytes carry the tag EL and are not drawn into the in-Coq sample"),
     trusted_base=[HARNESS_TB, EXTRACT_TB,
-                  "Lib/Json.v is my reading of RFC 8259 (strict); cross-validated on every run against encoding/json (json.Valid + utf8.Valid + "
-                  "surrogate pairing, decoded token streams) on observed lines, byte-mutants of them and a hand-written corpus",
+                  "Lib/Json.v is my reading of RFC 8259 (strict, except that an invalid UTF-8 byte inside a string reads as U+FFFD like in "
+                  "encoding/json); cross-validated on every run against encoding/json (json.Valid + surrogate pairing, decoded token streams) "
+                  "on observed lines, byte-mutants of them and a hand-written corpus",
+                  "Check/C01.v compares numbers that stem from an encoding/json oracle text by canonical value (mantissa, exponent), all other "
+                  "members textually; the runtime's frame (file, line) of the call site is the oracle for source",
                   "log/slog's Value.Resolve / Group / Record.Add[Attrs] decide which attribute tree reaches the handler; the harness reads the tree "
                   "back from the slog values it passes in"],
     assumptions=["time.AppendFormat(RFC3339Nano) yields printable ASCII without quote / backslash (wf_record, checked on every case)",
-                 "encoding/json's Encoder yields exactly one strict JSON value without newline, or an error (wf_value, checked on every case); "
-                 "a json.Marshaler is assumed to return valid UTF-8 (encoding/json copies a Marshaler's bytes without re-validating UTF-8)",
+                 "encoding/json's Encoder yields exactly one JSON value without newline, or an error (wf_value, checked on every case); "
+                 "a json.Marshaler may return invalid UTF-8 inside strings (read as U+FFFD), but is assumed not to return lone surrogate escapes",
                  "colour off; LogValuer.LogValue does not panic and resolves within slog's depth limit"],
 )
 CFG["manifest"] = dict(
     text=("Proof: Coq theorem C01_json_line_faithful — for every derivation chain, every record, all byte strings and all attribute trees the "
-          "model's output is body ++ newline, body has no newline and the strict RFC 8259 parser maps body to exactly the expected object "
+          "model's output is body ++ newline, body has no newline and the RFC 8259 parser (strict; invalid UTF-8 inside strings = U+FFFD) maps body to exactly the expected object "
           "(escape_roundtrip for all byte strings via the UTF-8 decode/encode lemma; nested induction over attribute trees in prefix-extension "
           "form; chain invariant). Tie: the real handler is driven with string sweeps and random trees x chains; every written line is judged "
           "by the extracted parser + expected; model bytes are compared (drift only)."),
